@@ -376,7 +376,9 @@ func checkC09(c *Ctx) {
 				// … and unconditionally: a completion always reaches the user (only the marking loop precedes it)
 				cond := ""
 				for _, g := range p.Guards(ci) {
-					loopExit := g.Cond.Contains(func(x *Sym) bool { return x.Kind == "next" || x.Kind == "ind" || x.Kind == "rangekey" || x.Kind == "rangeval" })
+					loopExit := g.Cond.Contains(func(x *Sym) bool {
+						return x.Kind == "next" || x.Kind == "ind" || x.Kind == "rangekey" || x.Kind == "rangeval"
+					})
 					if !loopExit {
 						cond = g.String()
 					}
